@@ -1646,6 +1646,45 @@ def reduce_mean(a, axis=None, keepdims=False):
     return s / cnt
 
 
+def argmax(a, axis=None, keepdims=False):
+    return _argext(a, axis, lambda x, y: x > y)
+
+
+def argmin(a, axis=None, keepdims=False):
+    return _argext(a, axis, lambda x, y: x < y)
+
+
+def _argext(a, axis, better):
+    """index of the FIRST extreme element (numpy/JAX tie rule) along a concrete axis"""
+    a = asarray(a)
+    if axis is None:
+        a = reshape(a, (-1,))
+        axis = 0
+    axis = _norm_axis(axis, a.ndim)
+    n = a.shape[axis]
+    if not _is_pyint(n):
+        raise Unsupported("argmax/argmin over a symbolic axis (needs a quantified contract)")
+    if n == 0:
+        raise ValueError("attempt to get argmax of an empty sequence")
+    out_shape = a.shape[:axis] + a.shape[axis + 1 :]
+
+    def fn(idx):
+        best_i = 0
+        best = _bool_to_num(a.at_index(idx[:axis] + (0,) + idx[axis:]))
+        for i in range(1, n):
+            v = _bool_to_num(a.at_index(idx[:axis] + (i,) + idx[axis:]))
+            c = better(v, best)
+            if isinstance(c, bool):
+                if c:
+                    best_i, best = i, v
+            else:
+                best_i = ite(c, i, best_i)
+                best = ite(c, v, best)
+        return best_i
+
+    return SymArray(out_shape, fn, "int")
+
+
 def matmul(a, b):
     a, b = asarray(a), asarray(b)
     if a.ndim == 2 and b.ndim == 2:
